@@ -263,6 +263,7 @@ fn summary_term(c: &Catalog, skip: &dyn Fn(&str, &str) -> bool, skip_idx: &dyn F
         v.push(format!("({}, {}, {})", st(s.name()), st(t.name()),
             clist(&t.indexes().iter().filter(|i| !skip_idx(i.name())).map(|i| st(i.name())).collect::<Vec<_>>())));
     } }
+    v.sort();   // HashMap order differs from load to load; a stable text lets equal observations share a run
     clist(&v)
 }
 
@@ -314,6 +315,10 @@ fn run_codec(tmp: &mut Tmp, cat: &Catalog) -> (i32, Vec<u8>, Vec<u8>, Loaded) {
     let file = std::fs::read(&p).unwrap_or_default();
     let l = real_load(&p);
     let _ = std::fs::remove_file(&p);
+    // save must not leave its temporary file behind
+    let mut tmp_name = p.as_os_str().to_os_string(); tmp_name.push(".tmp");
+    let tmp_path = PathBuf::from(tmp_name);
+    if tmp_path.exists() { let _ = std::fs::remove_file(&tmp_path); return (sflag, vec![], file, l); }
     (sflag, body, file, l)
 }
 
@@ -374,7 +379,7 @@ fn gen_table(rng: &mut Rng, fancy: bool) -> STable {
         idx: (0..ni).map(|_| gen_index(rng, fancy)).collect(),
         toast: match rng.below(4) { 0 => Some(rng.below(1000)), 1 => Some(u64::MAX), _ => None } }
 }
-/// shape: 0 plain (built-in schemas only), 1 user schema / dropped root, 2 expression / partial indexes
+/// shape: 0 built-in schemas only, 1 user schemas as well, 2 expression / partial indexes, 3 dropped root
 fn gen_scat(rng: &mut Rng, shape: u32) -> SCat {
     let mut schemas = vec![];
     let fancy = shape == 2;
@@ -383,9 +388,9 @@ fn gen_scat(rng: &mut Rng, shape: u32) -> SCat {
         if nt > 0 || rng.chance(1, 2) { schemas.push(SSchema { id: 0, name: nm.into(), tables: (0..nt).map(|_| gen_table(rng, fancy)).collect() }); }
     }
     let mut drop_root = false;
-    if shape == 1 {
-        if rng.chance(1, 5) { drop_root = true; schemas.retain(|s| s.name != "root"); }
-        else {
+    if shape == 3 { drop_root = true; schemas.retain(|s| s.name != "root"); }
+    if shape == 1 || (shape == 3 && rng.chance(1, 3)) {
+        {
             let ns = 1 + rng.below(2);
             for k in 0..ns {
                 let nt = rng.below(3) as usize;
@@ -541,6 +546,7 @@ enum Op {
     DropTable { schema: String, table: String },
     DropIndex { name: String },
     CreateSchema { name: String },
+    DropSchema { name: String },
     AddColumn { table: String, col: String, variant: u32 },
     RenameTable { table: String, to: String },
     Insert { table: String },
@@ -552,6 +558,7 @@ fn op_enc(o: &Op) -> String {
         Op::DropTable { schema, table } => format!("dt:{}:{}", if schema.is_empty() { "-" } else { schema }, table),
         Op::DropIndex { name } => format!("di:{}", name),
         Op::CreateSchema { name } => format!("cs:{}", name),
+        Op::DropSchema { name } => format!("ds:{}", name),
         Op::AddColumn { table, col, variant } => format!("ac:{}:{}:{}", table, col, variant),
         Op::RenameTable { table, to } => format!("rt:{}:{}", table, to),
         Op::Insert { table } => format!("in:{}", table),
@@ -566,6 +573,7 @@ fn op_dec(s: &str) -> Option<Op> {
         ("dt", 3) => Op::DropTable { schema: sch(p[1]), table: p[2].into() },
         ("di", 2) => Op::DropIndex { name: p[1].into() },
         ("cs", 2) => Op::CreateSchema { name: p[1].into() },
+        ("ds", 2) => Op::DropSchema { name: p[1].into() },
         ("ac", 4) => Op::AddColumn { table: p[1].into(), col: p[2].into(), variant: p[3].parse().ok()? },
         ("rt", 3) => Op::RenameTable { table: p[1].into(), to: p[2].into() },
         ("in", 2) => Op::Insert { table: p[1].into() },
@@ -607,6 +615,7 @@ fn op_sql(o: &Op) -> String {
         Op::DropTable { schema, table } => format!("DROP TABLE {}", qual(schema, table)),
         Op::DropIndex { name } => format!("DROP INDEX {}", name),
         Op::CreateSchema { name } => format!("CREATE SCHEMA {}", name),
+        Op::DropSchema { name } => format!("DROP SCHEMA {}", name),
         Op::AddColumn { table, col, variant } => format!("ALTER TABLE {} ADD COLUMN {} {}", table, col,
             ["INT", "TEXT DEFAULT 'n'", "VARCHAR(12) NOT NULL", "BIGINT CHECK (1 > 0)"][(*variant % 4) as usize]),
         Op::RenameTable { table, to } => format!("ALTER TABLE {} RENAME TO {}", table, to),
@@ -615,7 +624,7 @@ fn op_sql(o: &Op) -> String {
 }
 /// what a history is expected to have left: (schema, table) -> [(index, has expression, partial)]
 #[derive(Default, Clone)]
-struct Expect { tables: BTreeMap<(String, String), Vec<(String, bool, bool)>>, schemas: Vec<String> }
+struct Expect { tables: BTreeMap<(String, String), Vec<(String, bool, bool)>>, schemas: Vec<String>, gone: Vec<String> }
 impl Expect {
     fn apply(&mut self, o: &Op) {
         let sn = |s: &str| if s.is_empty() { "root".to_string() } else { s.to_string() };
@@ -627,7 +636,12 @@ impl Expect {
             }
             Op::DropTable { schema, table } => { self.tables.remove(&(sn(schema), table.clone())); }
             Op::DropIndex { name } => { for ix in self.tables.values_mut() { ix.retain(|i| &i.0 != name); } }
-            Op::CreateSchema { name } => { if !self.schemas.contains(name) { self.schemas.push(name.clone()); } }
+            Op::CreateSchema { name } => { if !self.schemas.contains(name) { self.schemas.push(name.clone()); } self.gone.retain(|g| g != name); }
+            Op::DropSchema { name } => {
+                self.schemas.retain(|g| g != name);
+                if !self.gone.contains(name) { self.gone.push(name.clone()); }
+                self.tables.retain(|k, _| &k.0 != name);
+            }
             Op::AddColumn { .. } | Op::Insert { .. } => {}
             Op::RenameTable { table, to } => {
                 if let Some(ix) = self.tables.remove(&("root".to_string(), table.clone())) { self.tables.insert(("root".to_string(), to.clone()), ix); }
@@ -710,6 +724,15 @@ fn gen_history(rng: &mut Rng, shape: u32, len: usize) -> Vec<Op> {
         if shape == 1 && !schema_made && rng.chance(1, 3) { ops.push(Op::CreateSchema { name: "an".into() }); schema_made = true; }
     }
     if shape == 1 && !schema_made { ops.push(Op::CreateSchema { name: "an".into() }); }
+    if shape == 1 {
+        ops.push(Op::CreateTable { schema: "an".into(), table: format!("u{}", nt), variant: rng.below(N_TABLE_VARIANTS as u64) as u32 });
+        // a second schema that is dropped again must stay dropped
+        if rng.chance(1, 3) { ops.push(Op::CreateSchema { name: "tmpsch".into() }); ops.push(Op::DropSchema { name: "tmpsch".into() }); }
+    }
+    if shape == 3 {
+        if rng.chance(1, 2) { ops.push(Op::CreateSchema { name: "an".into() }); }
+        ops.push(Op::DropSchema { name: "root".into() });
+    }
     if shape == 2 && !ops.iter().any(|o| matches!(o, Op::CreateIndex { variant, .. } if (4..=6).contains(variant))) {
         ops.push(Op::CreateIndex { table: tables[0].clone(), name: "ixz".into(), variant: 4 });
     }
@@ -727,14 +750,15 @@ fn ddl_case(w: &mut CaseWriter, tmp: &mut Tmp, ops: &[Op], kind: &str) {
     let l = real_load(&cat_path);
     let tabs: Vec<(String, String)> = ex.tables.keys().cloned().collect();
     let o = real_open(&dir, &tabs);
-    let term = format!("Ddl {} {} {} {} {}", clist(&ex.schemas.iter().map(|s| st(s)).collect::<Vec<_>>()), ex.term(), cbytes(&file), load_term(&l), open_term(&Some(o)));
+    let term = format!("Ddl {} {} {} {} {} {}", clist(&ex.schemas.iter().map(|s| st(s)).collect::<Vec<_>>()),
+        clist(&ex.gone.iter().map(|s| st(s)).collect::<Vec<_>>()), ex.term(), cbytes(&file), load_term(&l), open_term(&Some(o)));
     w.push(term, format!("ddl ops={}", ops_enc(ops)), ok >= 2, kind);
     let _ = std::fs::remove_dir_all(&dir);
 }
 
 // ------------------------------------------------------------------ crash states of the catalog rewrite
 fn ino(p: &Path) -> u64 { use std::os::unix::fs::MetadataExt; std::fs::metadata(p).map(|m| m.ino()).unwrap_or(0) }
-struct CrashRun { dir: PathBuf, inplace: bool, evs: Vec<(u32, u64, u64)>, oldfile: Vec<u8>, file: Vec<u8>, old_term: String, old_tabs: Vec<(String, String)> }
+struct CrashRun { dir: PathBuf, inplace: bool, evs: Vec<(u32, u32, u64, u64)>, oldfile: Vec<u8>, file: Vec<u8>, old_term: String, old_tabs: Vec<(String, String)> }
 /// history `ops`, close; reopen, one more statement `last`, close.  None if `last` failed or left the catalog file unchanged.
 fn crash_setup(tmp: &mut Tmp, ops: &[Op], last: &Op) -> Option<CrashRun> {
     let dir = tmp.fresh();
@@ -748,14 +772,18 @@ fn crash_setup(tmp: &mut Tmp, ops: &[Op], last: &Op) -> Option<CrashRun> {
     let old_cat = match real_load(&cat_path) { Loaded::Ok(c) => c, _ => return None };
     let i0 = ino(&cat_path);
     let mut i1 = i0;
-    let evlog: std::sync::Arc<std::sync::Mutex<Vec<(u32, u64, u64)>>> = Default::default();
+    let evlog: std::sync::Arc<std::sync::Mutex<Vec<(u32, u32, u64, u64)>>> = Default::default();
     let ok = {
         let db = Database::open(&dir).ok()?;
         let sql = op_sql(last);
         // record what the statement does to the live catalog file (io_event hook of /repo)
         let log = evlog.clone();
         turdb::verif_hooks::set_io_hook(Some(std::sync::Arc::new(move |kind: u32, p: &Path, a: u64, b: u64| {
-            if p.file_name().map(|n| n == "turdb.catalog").unwrap_or(false) { log.lock().unwrap().push((kind, a, b)); }
+            match p.file_name().and_then(|n| n.to_str()) {
+                Some("turdb.catalog") => log.lock().unwrap().push((0, kind, a, b)),
+                Some("turdb.catalog.tmp") => log.lock().unwrap().push((1, kind, a, b)),
+                _ => {}
+            }
         })));
         let r = matches!(catch(AssertUnwindSafe(|| db.execute(&sql).is_ok())), Caught::Done(true));
         turdb::verif_hooks::set_io_hook(None);
@@ -782,27 +810,44 @@ fn crash_setup(tmp: &mut Tmp, ops: &[Op], last: &Op) -> Option<CrashRun> {
 fn pout_term(l: &Loaded) -> String {
     match l { Loaded::Ok(c) => format!("(POk {})", summary_term(c, &|_, _| false, &|_| false)), Loaded::Err => "PErr".into(), Loaded::Panic => "PPanic".into() }
 }
-/// the observation for crash state n (-1: the old file; otherwise the first n bytes of the new one)
+/// the observation for crash state n.
+/// in place: -1 the old file, otherwise the first n bytes of the new one as the catalog.
+/// temporary file + rename: -1 the old catalog and no temporary file; 0..=len the old catalog and a
+/// temporary file holding the first n bytes of the new one; len+1 the new file renamed into place.
 fn crash_obs(run: &CrashRun, n: i64, with_open: bool) -> (Loaded, Option<Opened>) {
     let cat_path = run.dir.join("turdb.catalog");
-    let content: &[u8] = if n < 0 { &run.oldfile } else { &run.file[..(n as usize).min(run.file.len())] };
-    std::fs::write(&cat_path, content).expect("write crash state");
+    let tmp_path = run.dir.join("turdb.catalog.tmp");
+    let len = run.file.len() as i64;
+    let put = || {
+        if run.inplace {
+            let content: &[u8] = if n < 0 { &run.oldfile } else { &run.file[..(n as usize).min(run.file.len())] };
+            std::fs::write(&cat_path, content).expect("write crash state");
+            let _ = std::fs::remove_file(&tmp_path);
+        } else if n > len {
+            std::fs::write(&cat_path, &run.file).expect("write crash state");
+            let _ = std::fs::remove_file(&tmp_path);
+        } else {
+            std::fs::write(&cat_path, &run.oldfile).expect("write crash state");
+            if n < 0 { let _ = std::fs::remove_file(&tmp_path); } else { std::fs::write(&tmp_path, &run.file[..n as usize]).expect("write crash state"); }
+        }
+    };
+    put();
     let l = real_load(&cat_path);
     let o = if with_open {
         let r = real_open(&run.dir, &run.old_tabs);
-        std::fs::write(&cat_path, content).expect("rewrite crash state");   // a successful open saves the catalog again on drop
+        put();   // a successful open saves the catalog again when the handle is dropped
         Some(r)
     } else { None };
     (l, o)
 }
 fn crash_points(rng: &mut Rng, run: &CrashRun, thorough: bool) -> Vec<(i64, bool)> {
     let len = run.file.len() as i64;
-    if !run.inplace { return vec![(-1, true), (len, true)]; }
-    let mut opens: Vec<i64> = vec![-1, 0, 1, 16, 127, 128, 129, len / 2, len - 1, len];
+    let last = if run.inplace { len } else { len + 1 };
+    let mut opens: Vec<i64> = vec![-1, 0, 1, 16, 127, 128, 129, len / 2, len - 1, len, last];
     let extra = if thorough { 40 } else { 6 };
     for _ in 0..extra { opens.push(rng.below(len as u64 + 1) as i64); }
     let mut v = vec![(-1, true)];
-    for n in 0..=len { v.push((n, opens.contains(&n))); }
+    for n in 0..=last { v.push((n, opens.contains(&n))); }
     v
 }
 fn crash_case(w: &mut CaseWriter, tmp: &mut Tmp, rng: &mut Rng, ops: &[Op], last: &Op, only_n: Option<i64>, thorough: bool, kind: &str) {
@@ -817,7 +862,7 @@ fn crash_case(w: &mut CaseWriter, tmp: &mut Tmp, rng: &mut Rng, ops: &[Op], last
         match runs.last_mut() { Some(r) if r.2 == t && r.1 + 1 == n => r.1 = n, _ => runs.push((n, n, t)) }
     }
     let obs: Vec<String> = runs.iter().map(|(lo, hi, t)| format!("ORun {} {} {}", z(*lo as i128), z(*hi as i128), t)).collect();
-    let evs = clist(&run.evs.iter().map(|(k, a, b)| format!("({}, {}, {})", k, a, b)).collect::<Vec<_>>());
+    let evs = clist(&run.evs.iter().map(|(p, k, a, b)| format!("({}, {}, {}, {})", p, k, a, b)).collect::<Vec<_>>());
     let term = format!("Crash {} {} {} {} {} {}", cbool(run.inplace), evs, run.old_term, cbytes(&run.oldfile), cbytes(&run.file), clist(&obs));
     let mut line = format!("crash ops={} | last={}", ops_enc(ops), op_enc(last));
     if let Some(n) = only_n { line.push_str(&format!(" | n={}", n)); }
@@ -881,9 +926,9 @@ fn gen(a: &Args) {
     for sc in boundary_scats(thorough) { codec_case(&mut w, &mut tmp, &sc, "codec_boundary"); }
     let n_codec = if thorough { 2500 } else { 160 };
     for i in 0..n_codec {
-        let shape = match i % 10 { 7 => 1, 8 | 9 => 2, _ => 0 };
+        let shape = match i % 20 { 12..=14 => 1, 15..=18 => 2, 19 => 3, _ => 0 };
         let sc = gen_scat(&mut rng, shape);
-        codec_case(&mut w, &mut tmp, &sc, ["codec_plain", "codec_schema_set", "codec_expr_partial_index"][shape as usize]);
+        codec_case(&mut w, &mut tmp, &sc, ["codec_builtin_schemas", "codec_user_schemas", "codec_expr_partial_index", "codec_dropped_root"][shape as usize]);
     }
     let t_a = std::time::Instant::now();
     // ---- (b) raw streams through deserialize / load
@@ -943,19 +988,20 @@ fn gen(a: &Args) {
     // ---- (c) DDL histories
     let n_ddl = if thorough { 200 } else { 24 };
     for i in 0..n_ddl {
-        let shape = match i % 10 { 6 => 1, 7 | 8 => 2, _ => 0 };
+        let shape = match i % 12 { 5 | 6 => 1, 7 | 8 => 2, 11 => 3, _ => 0 };
         let len = 2 + rng.below(9) as usize;
         let ops = gen_history(&mut rng, shape, len);
-        ddl_case(&mut w, &mut tmp, &ops, ["ddl_plain", "ddl_user_schema", "ddl_expr_partial_index"][shape as usize]);
+        ddl_case(&mut w, &mut tmp, &ops, ["ddl_builtin_schemas", "ddl_user_schema", "ddl_expr_partial_index", "ddl_dropped_root"][shape as usize]);
     }
     let t_c = std::time::Instant::now();
     // ---- (d) crash states of one more DDL statement
     let n_crash = if thorough { 80 } else { 12 };
     for _ in 0..n_crash {
         let len = 1 + rng.below(5) as usize;
-        let ops = gen_history(&mut rng, 0, len);
+        let hshape = if rng.chance(1, 4) { 1 } else { 0 };
+        let ops = gen_history(&mut rng, hshape, len);
         let last = gen_last(&mut rng, &ops);
-        crash_case(&mut w, &mut tmp, &mut rng, &ops, &last, None, thorough, "crash_every_prefix");
+        crash_case(&mut w, &mut tmp, &mut rng, &ops, &last, None, thorough, "crash_every_state");
     }
     let t_d = std::time::Instant::now();
     w.finish(&[("phase_ms".to_string(), format!("[{}, {}, {}, {}]", (t_a - t_0).as_millis(), (t_b - t_a).as_millis(), (t_c - t_b).as_millis(), (t_d - t_c).as_millis()))]);
@@ -990,14 +1036,14 @@ fn search(a: &Args) {
     }
     let n_codec = budget * 3 / 4;
     for i in 0..n_codec {
-        let shape = match i % 20 { 18 => 1, 19 => 2, _ => 0 };
+        let shape = match i % 20 { 17 => 3, 18 => 1, 19 => 2, _ => 0 };
         let sc = gen_scat(&mut rng, shape);
         tried += 1;
         if !codec_ok(&mut tmp, &sc) && fails.len() < 40 { fails.push(format!("codec tags={} cat={}", scat_tags(&sc), scat_enc(&sc))); }
     }
     let n_ddl = (budget / 200).max(20);
     for i in 0..n_ddl {
-        let shape = match i % 20 { 18 => 1, 19 => 2, _ => 0 };
+        let shape = match i % 20 { 17 => 3, 18 => 1, 19 => 2, _ => 0 };
         let len = 2 + rng.below(9) as usize;
         let ops = gen_history(&mut rng, shape, len);
         let dir = tmp.fresh();
@@ -1008,12 +1054,12 @@ fn search(a: &Args) {
         let idx_ok = match real_load(&dir.join("turdb.catalog")) {
             Loaded::Ok(c) => ex.tables.iter().all(|((s, t), ix)| match c.get_table(s, t) {
                 Some(td) => ix.iter().all(|(n, e, p)| td.get_index(n).map(|i| i.has_expressions() == *e && i.is_partial() == *p).unwrap_or(false)),
-                None => false }) && ex.schemas.iter().all(|s| c.schema_exists(s)),
+                None => false }) && ex.schemas.iter().all(|s| c.schema_exists(s)) && ex.gone.iter().all(|s| !c.schema_exists(s)),
             _ => false,
         };
         let ok = idx_ok && matches!(real_open(&dir, &tabs), Opened::Ok(0));
         if !ok && fails.len() < 60 {
-            let tag = if !ex.schemas.is_empty() { "userschema" } else if ex.tables.values().any(|ix| ix.iter().any(|i| i.1 || i.2)) { "expridx" } else { "plain" };
+            let tag = if ex.gone.iter().any(|g| g == "root") { "noroot" } else if !ex.schemas.is_empty() { "userschema" } else if ex.tables.values().any(|ix| ix.iter().any(|i| i.1 || i.2)) { "expridx" } else { "plain" };
             fails.push(format!("ddl tags={} ops={}", tag, ops_enc(&ops)));
         }
         let _ = std::fs::remove_dir_all(&dir);
@@ -1032,7 +1078,7 @@ fn search(a: &Args) {
             let ok = ok && (n % 37 != 0 || matches!(real_open(&run.dir, &run.old_tabs), Opened::Ok(0)));
             if !ok {
                 let len = run.file.len() as i64;
-                let (slot, pt) = if n < 0 { (0, "old") } else if n >= len { (1, "new") } else { (2, "inside") };
+                let (slot, pt) = if n < 0 { (0, "old") } else if n >= len + (if run.inplace { 0 } else { 1 }) { (1, "new") } else if run.inplace { (2, "inside") } else { (2, "tmp") };
                 if !reported[slot] && fails.len() < 80 {
                     reported[slot] = true;
                     fails.push(format!("crash ops={} | last={} | n={} pt={}", ops_enc(&ops), op_enc(&last), n, pt));
